@@ -719,8 +719,15 @@ func (s *v4Server) commitLease(l *dhcpsvc.Lease, hostname string) {
 		log.Info("dhcpv4: hostname %q already exists", hostname)
 
 		if prev == "" {
-			// The lease is just allocated due to DHCPDISCOVER.
+			// The lease is just allocated due to DHCPDISCOVER.  Don't take the
+			// generated hostname either if another lease already has it, since
+			// the hostnames must be unique: leave the lease without a hostname.
 			hostname = aghnet.GenerateHostname(l.IP)
+			if dup, dupOk := s.hostsIndex[hostname]; dupOk && dup != l {
+				log.Info("dhcpv4: generated hostname %q already exists", hostname)
+
+				hostname = ""
+			}
 		} else {
 			hostname = prev
 		}
